@@ -9,8 +9,8 @@ package verifx
 import (
 	"crypto/tls"
 	"errors"
-	"io"
 	"fmt"
+	"io"
 	"net"
 	"os"
 	"strconv"
@@ -51,6 +51,8 @@ type HopConfig struct {
 	UTF8       bool
 	RequireTLS bool
 	TLS        *tls.Config // non-nil: STARTTLS is advertised
+	// the server drops idle connections after this long, announcing it with a 421 reply (0: never)
+	IdleTimeout time.Duration
 }
 
 type NextHop struct {
@@ -98,6 +100,9 @@ func StartNextHop(cfg HopConfig) (*NextHop, error) {
 	s.EnableREQUIRETLS = cfg.RequireTLS
 	s.TLSConfig = cfg.TLS
 	s.AllowInsecureAuth = true
+	if cfg.IdleTimeout > 0 {
+		s.ReadTimeout = cfg.IdleTimeout
+	}
 	h.srv = s
 	go s.Serve(l)
 	return h, nil
